@@ -20,9 +20,20 @@ def isA (cls name : String) : Bool := (cls.splitOn "|").contains name
 def headCls (cls : String) : String := (cls.splitOn "|").headD cls
 def escape (cls : String) : Err := if isA cls "TypeError" then .dispatch (headCls cls) else .raised (headCls cls)
 
-/-! ### decorators (`series_utils.py`) -/
+/-! ### decorators (`series_utils.py`)
+
+Membership predicates never raise in the model (every `contains_op` body is a composition of total
+dtype tests and `all(...)` over `isinstance`/`hasattr`), so they are plain `Bool` functions; guards
+and transformers, which call parsers, are `R`-valued. -/
 
 /-- `series_handle_nulls` -/
+def handleNullsB (f : Column → Bool) (c : Column) : Bool :=
+  if c.hasnans then
+    let c' := c.dropna
+    if c'.empty then false else f c'
+  else f c
+
+/-- `series_handle_nulls` around a function that may raise -/
 def handleNulls (f : Column → R Bool) (c : Column) : R Bool :=
   if c.hasnans then
     let c' := c.dropna
@@ -30,11 +41,11 @@ def handleNulls (f : Column → R Bool) (c : Column) : R Bool :=
   else f c
 
 /-- `series_not_empty` -/
-def notEmpty (f : Column → R Bool) (c : Column) : R Bool :=
-  if c.empty then .ok false else f c
+def notEmptyB (f : Column → Bool) (c : Column) : Bool :=
+  if c.empty then false else f c
 
 /-- `series_not_sparse`: tests `isinstance(series, pd.SparseDtype)` on a *Series* — never true -/
-def notSparse (f : Column → R Bool) (c : Column) : R Bool := f c
+def notSparseB (f : Column → Bool) (c : Column) : Bool := f c
 
 /-- the class of the first exception raised while mapping over the elements, if any -/
 def firstRaise {α : Type} : List (Outcome α) → Option String
@@ -47,82 +58,74 @@ def oks {α : Type} : List (Outcome α) → List α
   | .raises _ :: xs => oks xs
   | .ok a :: xs => a :: oks xs
 
-/-- `all(p(x) for x in xs)` where `p` may raise: first failing element decides -/
-def allM (p : Cell → R Bool) : List Cell → R Bool
-  | [] => .ok true
-  | x :: xs => match p x with
-    | .error e => .error e
-    | .ok false => .ok false
-    | .ok true => allM p xs
-
 /-! ### `_contains_instance_attrs` -/
 
 /-- class test on `head(1)` only, then `hasattr` on every element -/
-def containsInstanceAttrs (isCls : Cell → Bool) (hasAttrs : Cell → Bool) (c : Column) : R Bool :=
-  if !((c.cells.take 1).all isCls) then .ok false
-  else .ok (c.cells.all hasAttrs)
+def containsInstanceAttrs (isCls : Cell → Bool) (hasAttrs : Cell → Bool) (c : Column) : Bool :=
+  if !((c.cells.take 1).all isCls) then false
+  else c.cells.all hasAttrs
 
 /-! ### contains_op -/
 
-def booleanContains : Column → R Bool :=
-  notSparse (handleNulls (notEmpty (fun c => .ok (c.dtype.isBool && !c.dtype.isCategorical))))
-def categoricalContains : Column → R Bool :=
-  notSparse (notEmpty (fun c => .ok c.dtype.isCategorical))
-def complexContains : Column → R Bool :=
-  notSparse (notEmpty (fun c => .ok c.dtype.isComplex))
-def countContains : Column → R Bool :=
-  notSparse (notEmpty (fun c => .ok c.dtype.isUnsigned))
-def dateContains : Column → R Bool :=
-  handleNulls (notEmpty (containsInstanceAttrs (fun x => x.cls == "date") (·.hasDateAttrs)))
-def datetimeContains : Column → R Bool :=
-  notSparse (handleNulls (notEmpty (fun c => .ok c.dtype.isDatetime)))
-def emailContains : Column → R Bool :=
-  notEmpty (handleNulls (containsInstanceAttrs (·.isFQDA) (·.hasEmailAttrs)))
-def fileContains : Column → R Bool :=
-  notEmpty (handleNulls (fun c => .ok (c.cells.all (fun x => x.isPath && x.pathExists))))
-def floatContains : Column → R Bool :=
-  notSparse (handleNulls (notEmpty (fun c => .ok c.dtype.isFloat)))
-def geometryContains : Column → R Bool :=
-  notEmpty (handleNulls (fun c => .ok (c.cells.all (·.isGeom))))
-def imageContains : Column → R Bool :=
-  notEmpty (handleNulls (fun c => .ok (c.cells.all (fun x => x.isPath && x.pathExists && x.pathImage))))
-def integerContains : Column → R Bool :=
-  notSparse (notEmpty (fun c => .ok c.dtype.isInteger))
-def ipContains : Column → R Bool :=
-  notEmpty (handleNulls (fun c => .ok (c.cells.all (·.isIP))))
-def numericContains : Column → R Bool :=
-  notSparse (notEmpty (fun c => .ok c.dtype.isNumeric))
-def objectContains : Column → R Bool :=
-  notSparse (handleNulls (notEmpty (fun c =>
-    .ok (if c.dtype.isObject then true else c.dtype.isStringNonObject && !c.dtype.isCategorical))))
-def ordinalContains : Column → R Bool :=
-  notEmpty (fun c => .ok (c.dtype.isCategorical && c.dtype.catOrdered))
-def pathContains : Column → R Bool :=
-  notEmpty (handleNulls (fun c => .ok (c.cells.all (fun x => x.isPurePath && x.pathAbs))))
-def sparseContains : Column → R Bool := fun c => .ok c.dtype.isSparse
+def booleanContains : Column → Bool :=
+  notSparseB (handleNullsB (notEmptyB (fun c => c.dtype.isBool && !c.dtype.isCategorical)))
+def categoricalContains : Column → Bool :=
+  notSparseB (notEmptyB (fun c => c.dtype.isCategorical))
+def complexContains : Column → Bool :=
+  notSparseB (notEmptyB (fun c => c.dtype.isComplex))
+def countContains : Column → Bool :=
+  notSparseB (notEmptyB (fun c => c.dtype.isUnsigned))
+def dateContains : Column → Bool :=
+  handleNullsB (notEmptyB (containsInstanceAttrs (fun x => x.cls == "date") (·.hasDateAttrs)))
+def datetimeContains : Column → Bool :=
+  notSparseB (handleNullsB (notEmptyB (fun c => c.dtype.isDatetime)))
+def emailContains : Column → Bool :=
+  notEmptyB (handleNullsB (containsInstanceAttrs (·.isFQDA) (·.hasEmailAttrs)))
+def fileContains : Column → Bool :=
+  notEmptyB (handleNullsB (fun c => c.cells.all (fun x => x.isPath && x.pathExists)))
+def floatContains : Column → Bool :=
+  notSparseB (handleNullsB (notEmptyB (fun c => c.dtype.isFloat)))
+def geometryContains : Column → Bool :=
+  notEmptyB (handleNullsB (fun c => c.cells.all (·.isGeom)))
+def imageContains : Column → Bool :=
+  notEmptyB (handleNullsB (fun c => c.cells.all (fun x => x.isPath && x.pathExists && x.pathImage)))
+def integerContains : Column → Bool :=
+  notSparseB (notEmptyB (fun c => c.dtype.isInteger))
+def ipContains : Column → Bool :=
+  notEmptyB (handleNullsB (fun c => c.cells.all (·.isIP)))
+def numericContains : Column → Bool :=
+  notSparseB (notEmptyB (fun c => c.dtype.isNumeric))
+def objectContains : Column → Bool :=
+  notSparseB (handleNullsB (notEmptyB (fun c =>
+    if c.dtype.isObject then true else c.dtype.isStringNonObject && !c.dtype.isCategorical)))
+def ordinalContains : Column → Bool :=
+  notEmptyB (fun c => c.dtype.isCategorical && c.dtype.catOrdered)
+def pathContains : Column → Bool :=
+  notEmptyB (handleNullsB (fun c => c.cells.all (fun x => x.isPurePath && x.pathAbs)))
+def sparseContains : Column → Bool := fun c => c.dtype.isSparse
 
 /-- `_is_string` (under `series_handle_nulls`): the first five values are `str`, and
 `series.astype(str).values == series.values` everywhere (TypeError/ValueError → False) -/
-def isString : Column → R Bool :=
-  handleNulls (fun c =>
-    if !((c.cells.take 5).all (·.isStr)) then .ok false
-    else .ok (c.cells.all (fun x => match x.strEq with | .ok b => b | .raises _ => false)))
-def stringContains : Column → R Bool :=
-  notSparse (notEmpty (fun c =>
-    if c.dtype.isCategorical then .ok false
-    else if !c.dtype.isObject then .ok c.dtype.isStringNonObject
-    else isString c))
-def timeContains : Column → R Bool :=
-  handleNulls (notEmpty (containsInstanceAttrs (fun x => x.cls == "time") (·.hasTimeAttrs)))
-def timedeltaContains : Column → R Bool :=
-  notSparse (notEmpty (fun c => .ok c.dtype.isTimedelta))
-def urlContains : Column → R Bool :=
-  handleNulls (notEmpty (containsInstanceAttrs (·.isParseResult) (·.hasUrlAttrs)))
-def uuidContains : Column → R Bool :=
-  notEmpty (handleNulls (containsInstanceAttrs (·.isUUID) (·.hasUuidAttrs)))
+def isString : Column → Bool :=
+  handleNullsB (fun c =>
+    if !((c.cells.take 5).all (·.isStr)) then false
+    else c.cells.all (fun x => match x.strEq with | .ok b => b | .raises _ => false))
+def stringContains : Column → Bool :=
+  notSparseB (notEmptyB (handleNullsB (fun c =>
+    if c.dtype.isCategorical then false
+    else if !c.dtype.isObject then c.dtype.isStringNonObject
+    else isString c)))
+def timeContains : Column → Bool :=
+  handleNullsB (notEmptyB (containsInstanceAttrs (fun x => x.cls == "time") (·.hasTimeAttrs)))
+def timedeltaContains : Column → Bool :=
+  notSparseB (notEmptyB (fun c => c.dtype.isTimedelta))
+def urlContains : Column → Bool :=
+  handleNullsB (notEmptyB (containsInstanceAttrs (·.isParseResult) (·.hasUrlAttrs)))
+def uuidContains : Column → Bool :=
+  notEmptyB (handleNullsB (containsInstanceAttrs (·.isUUID) (·.hasUuidAttrs)))
 
-def contains : Ty → Column → R Bool
-  | .Generic => fun _ => .ok true
+def containsB : Ty → Column → Bool
+  | .Generic => fun _ => true
   | .String => stringContains
   | .Boolean => booleanContains
   | .Categorical => categoricalContains
@@ -146,6 +149,8 @@ def contains : Ty → Column → R Bool
   | .EmailAddress => emailContains
   | .Sparse => sparseContains
   | .Numeric => numericContains
+
+def contains (t : Ty) (c : Column) : R Bool := .ok (containsB t c)
 
 /-! ### relations: guards -/
 
@@ -189,13 +194,13 @@ def stringIsComplex (c : Column) : R Bool :=
     let nonNull := vs.filter (fun p => !(p.1.isNan || p.2.isNan))
     if nonNull.all (fun p => p.2.isZero) then .ok false
     else
-      -- imaginary_in_string(series): `v in s` on a non-string element raises TypeError (not caught)
+      -- imaginary_in_string(series.dropna()): `v in s` on a non-string element raises TypeError (not caught)
       let rec scan : List Cell → R Bool
         | [] => .ok false
         | x :: xs => match x.str with
           | some f => if f.hasJI then .ok true else scan xs
           | none => .error (escape "TypeError")
-      scan c.cells
+      scan c.dropna.cells
 
 /-- column-level oracle: the outcome of `pandas_infer_datetime` on the cells handed to it -/
 structure ColOracle where
@@ -245,11 +250,12 @@ def stringIsFloat : Column → R Bool :=
       if fs.isEmpty || nn.isEmpty then .ok false
       else .ok (leadingZerosOk c.cells fs))
 
-/-- `complex_is_float`: `all(np.imag(series.values) == 0)` -/
-def complexIsFloat (c : Column) : R Bool :=
-  .ok (c.cells.all (fun x => match x.pay with
-    | .complex _ im => im.isZero
-    | _ => false))
+/-- `complex_is_float` (under `series_handle_nulls`): `all(np.imag(series.values) == 0)` -/
+def complexIsFloat : Column → R Bool :=
+  handleNulls (fun c =>
+    .ok (c.cells.all (fun x => match x.pay with
+      | .complex _ im => im.isZero
+      | _ => false)))
 
 /-- `float_is_integer` -/
 def floatIsInteger : Column → R Bool :=
@@ -299,12 +305,12 @@ def stringIsPath (c : Column) : R Bool :=
       | some cls => if isA cls "TypeError" then .ok false else .error (escape cls)
       | _ => .ok (px.all (fun v => match v with | .ok (b, _) => b | _ => false))
 
-/-- `string_is_url` (under `series_handle_nulls`): only AttributeError is caught -/
+/-- `string_is_url` (under `series_handle_nulls`): AttributeError and ValueError are caught -/
 def stringIsUrl : Column → R Bool :=
   handleNulls (fun c =>
     let us := c.cells.map (fun x => match x.str with | some f => f.url | none => Outcome.raises "AttributeError")
     match firstRaise us with
-    | some cls => if isA cls "AttributeError" then .ok false else .error (escape cls)
+    | some cls => if isA cls "AttributeError" || isA cls "ValueError" then .ok false else .error (escape cls)
     | _ => .ok (us.all (fun v => match v with | .ok (n, s, _) => n && s | _ => false)))
 
 /-- `series.all()` on the *input* strings, as `coercion_true_test` does -/
@@ -457,14 +463,8 @@ def stringToPath (c : Column) : R Column :=
         (fun _ => .raises "TypeError")
 def stringToUrl (c : Column) : R Column :=
   applyStr c (fun f => match f.url with | .ok (n, s, r) => .ok (urlCell n s r) | .raises cls => .raises cls)
-    -- `urlparse(None)` is `ParseResultBytes(b'', …)`; `urlparse(nan)` / `urlparse(NaT)` raise AttributeError,
-    -- `urlparse(pd.NA)` TypeError ("boolean value of NA is ambiguous")
-    (fun x => if x.null then
-        (match x.na with
-         | .none_ => .ok { Cell.blank with cls := "ParseResultBytes", hasUrlAttrs := true }
-         | .pdNA => .raises "TypeError"
-         | _ => .raises "AttributeError")
-      else .raises "AttributeError")
+    -- `_urlparse_or_missing`: a missing value is kept as it is
+    (fun x => if x.null then .ok x else .raises "AttributeError")
 def stringToUuid (c : Column) : R Column :=
   applyStr c (fun f => match f.uuid with | .ok r => .ok (uuidCell r) | .raises cls => .raises cls)
     (fun _ => .raises "AttributeError")
